@@ -838,6 +838,18 @@ func stUnary(rng *vRand, h *stRun) {
 	method := fmt.Sprintf("/svc/u%d", rng.Intn(5))
 	opts := []grpc.CallOption{grpc.EmptyCallOption{}, grpc.WaitForReady(true)}[:rng.Intn(3)]
 	ctx := context.WithValue(context.Background(), stUserKey{}, "user-value")
+	// the caller's context may end while the invoker runs (or be over already):
+	// what the invoker returns is still what the caller gets
+	ctxEnds := rng.Intn(3)
+	var cancelCtx context.CancelFunc
+	if ctxEnds > 0 {
+		ctx, cancelCtx = context.WithCancel(ctx)
+		defer cancelCtx()
+		if ctxEnds == 2 {
+			cancelCtx()
+		}
+		h.hit("C12.unary-context-ends")
+	}
 	nested := rng.Bool()
 	if nested {
 		// the caller's context is derived from another intercepted call (e.g. an
@@ -860,11 +872,14 @@ func stUnary(rng *vRand, h *stRun) {
 		if !ok || gc.reqMsg != interface{}(req) || gc.replyMsg != interface{}(reply) {
 			bad = "the context handed to the invoker does not carry the request and reply objects"
 		}
+		if ctxEnds == 1 {
+			cancelCtx()
+		}
 		return wantErr
 	}
 	var err error
 	op := vStartOp(func() { err = GCPUnaryClientInterceptor(ctx, method, req, reply, nil, invoker, opts...) })
-	h.say("unary %s opts=%d invokerErr=%v nested-gcp-context=%v", method, len(opts), wantErr, nested)
+	h.say("unary %s opts=%d invokerErr=%v nested-gcp-context=%v caller-context-ends=%d (0 no, 1 during the invoker, 2 before)", method, len(opts), wantErr, nested, ctxEnds)
 	if st := op.awaitDone(5 * time.Second); st != vDone || op.panicked {
 		h.fail("C12.panic", "unary", "GCPUnaryClientInterceptor panicked or hung: %v", op.pval)
 		return
